@@ -281,7 +281,6 @@ func buildResp(req *dns.Msg) (m *dns.Msg, sh shape, size int, err error) {
 
 			// Give the filler the room of the last payload record.
 			recs = recs[:len(recs)-1]
-			fill = left
 			distribute(m, sh.Mix, recs, nil, opt)
 			s2, pErr := packedLen(m)
 			if pErr != nil {
@@ -291,7 +290,11 @@ func buildResp(req *dns.Msg) (m *dns.Msg, sh shape, size int, err error) {
 		}
 	}
 
-	return m, sh, size, nil
+	// Not reached exactly (does not happen for the grid's sizes): report what
+	// the message really is.
+	size, err = packedLen(m)
+
+	return m, sh, size, err
 }
 
 func packedLen(m *dns.Msg) (n int, err error) {
@@ -317,6 +320,7 @@ type hRecord struct {
 type h8 struct {
 	invocations atomic.Int64
 	buildErrors atomic.Int64
+	firstErr    atomic.Value // string
 
 	mu      sync.Mutex
 	waiters map[int]chan hRecord
@@ -348,6 +352,11 @@ func (h *h8) ServeDNS(ctx context.Context, rw dnsserver.ResponseWriter, req *dns
 	resp, sh, size, err := buildResp(req)
 	if err != nil {
 		h.buildErrors.Add(1)
+		srv := "?"
+		if si, ok := dnsserver.ServerInfoFromContext(ctx); ok {
+			srv = si.Name
+		}
+		h.firstErr.CompareAndSwap(nil, fmt.Sprintf("%s: %v; request: %s", srv, err, strings.ReplaceAll(req.String(), "\n", " | ")))
 
 		return err
 	}
